@@ -19,6 +19,17 @@ def run(pid, tier, plan, oracle_name, monitors_name=None, assumptions=(), extra_
         "schedules complete up to the stated deviation bound per program; decision points are "
         "kernel operations and operations on the executor's shared containers",
     ]
+    # bind the modelled kernel to the real primitives in this very run (depth-3 differential
+    # conformance, ~1 s); a disagreement means the model is wrong: internal error, never a pass
+    from .. import selftest
+    conf = selftest.run(3)
+    conformance = dict(conformance or {})
+    conformance["kernel_model_sequences"] = conf["count"]
+    conformance["kernel_model_disagreements"] = conf["n_disagreements"]
+    conformance["count"] = conformance.get("count", 0) + conf["count"]
+    if conf["n_disagreements"]:
+        rep.internal.append(dict(error="kernel model disagrees with the real primitives",
+                                 detail=conf["disagreements"][:3]))
     sd = framework.seed()
     if plan and sd:
         k = sd % len(plan)
@@ -64,7 +75,7 @@ def run(pid, tier, plan, oracle_name, monitors_name=None, assumptions=(), extra_
         rep.add_violation(v)
     for v in extra_violations:
         rep.add_violation(v)
-    rep.internal = total.internal
+    rep.internal = list(rep.internal) + list(total.internal)
     nontrivial = total.executions      # every prefix is a distinct choice list by construction
     cov = dict(
         states=len(total.states), transitions=len(total.transitions),
